@@ -154,11 +154,16 @@ function encode(v, seen = new Set(), depth = 0) {
     if (v instanceof Set) return { t: "set", v: [...v].map((x) => encode(x, seen, depth + 1)) };
     if (ArrayBuffer.isView(v)) return { t: "ta", k: v.constructor.name, v: [...v].map((x) => (typeof x === "bigint" ? x.toString() : x)) };
     const proto = Object.getPrototypeOf(v);
-    return {
+    const enc = {
       t: "obj",
       proto: proto === null ? "null" : proto === Object.prototype ? "plain" : "class",
       v: Object.keys(v).map((k) => [k, encode(v[k], seen, depth + 1)]),
     };
+    // own properties that Object.keys does not show (a copy made with defineProperty and no `enumerable`): part of the
+    // value as far as equality of parsed data is concerned
+    const hidden = Object.getOwnPropertyNames(v).filter((k) => !Object.prototype.propertyIsEnumerable.call(v, k));
+    if (hidden.length > 0) enc.hidden = hidden.sort().map((k) => [k, encode(Object.getOwnPropertyDescriptor(v, k).value, seen, depth + 1)]);
+    return enc;
   } finally {
     seen.delete(v);
   }
